@@ -386,10 +386,13 @@ class Interp:
         """Interpret FunctionDef `fn` with positional args (already including self/cls) and keywords."""
         kw = dict(kw or {})
         a = fn.args
-        if a.vararg or a.kwarg or a.posonlyargs:
-            raise self.unsupported("*args/**kwargs signature of %s" % fn_label(fn), fn)
+        if a.posonlyargs:
+            raise self.unsupported("positional-only signature of %s" % fn_label(fn), fn)
         params = [p.arg for p in a.args]
         env = {}
+        if a.vararg:
+            env[a.vararg.arg] = tuple(args[len(params):])
+            args = list(args[:len(params)])
         if len(args) > len(params):
             raise self.unsupported("too many arguments for %s" % fn_label(fn), fn)
         for p, v in zip(params, args):
@@ -412,6 +415,9 @@ class Interp:
                 env[p.arg] = self.ev(d, {})
             else:
                 raise self.unsupported("missing kw-only argument", fn)
+        if a.kwarg:
+            env[a.kwarg.arg] = dict(kw)
+            kw = {}
         if kw:
             raise self.unsupported("unexpected keyword(s) %s for %s" % (sorted(kw), fn_label(fn)), fn)
         env["__class__"] = ClassRef(getattr(fn, "_gs_class", None) or "?")
@@ -613,6 +619,8 @@ class Interp:
             return list(v)
         if isinstance(v, VFile):
             return v.text_lines()
+        if isinstance(v, IndexSet):
+            return [Arr([Poly.const(i) for i, _ in v.pairs], 1), Arr([Poly.const(j) for _, j in v.pairs], 1)]
         if isinstance(v, (frozenset, set)):
             return [self.unhash(x) for x in v]
         if isinstance(v, Arr):
@@ -1169,6 +1177,14 @@ class Interp:
     def ev_index(self, sl, env):
         if isinstance(sl, ast.Constant) and sl.value is Ellipsis:
             return slice(None)
+        if isinstance(sl, ast.Tuple) and len(sl.elts) == 2 and not any(isinstance(e, ast.Slice) for e in sl.elts):
+            vals = [self.ev(e, env) for e in sl.elts]
+            if all(isinstance(x, (Arr, list)) for x in vals):
+                rows = [self.intval(x, sl) for x in (vals[0].data if isinstance(vals[0], Arr) else vals[0])]
+                cols = [self.intval(x, sl) for x in (vals[1].data if isinstance(vals[1], Arr) else vals[1])]
+                if len(rows) == len(cols):
+                    return IndexSet(list(zip(rows, cols)))
+            return tuple(x if isinstance(x, (slice, IndexSet)) else self.intval(x, sl) for x in vals)
         if isinstance(sl, ast.Tuple):
             return tuple(self.ev_index(e, env) for e in sl.elts)
         if isinstance(sl, ast.Slice):
@@ -1181,6 +1197,11 @@ class Interp:
             return v
         if isinstance(v, tuple) and any(isinstance(x, slice) for x in v):
             return tuple(x if isinstance(x, slice) else self.intval(x, sl) for x in v)
+        if isinstance(v, tuple) and len(v) == 2 and all(isinstance(x, (Arr, list)) for x in v):
+            rows = [self.intval(x, sl) for x in (v[0].data if isinstance(v[0], Arr) else v[0])]
+            cols = [self.intval(x, sl) for x in (v[1].data if isinstance(v[1], Arr) else v[1])]
+            if len(rows) == len(cols):
+                return IndexSet(list(zip(rows, cols)))
         if isinstance(v, list) and v and all(isinstance(x, Poly) and x.const_value() is not None for x in v):
             return [self.intval(x, sl) for x in v]
         if isinstance(v, Arr) and v.ndim == 1 and all(x.const_value() is not None for x in v.data):
@@ -1394,7 +1415,11 @@ class Interp:
         kw = {}
         for k in n.keywords:
             if k.arg is None:
-                raise self.unsupported("**kwargs call", n)
+                d = self.ev(k.value, env)
+                if not isinstance(d, dict) or not all(isinstance(x, str) for x in d):
+                    raise self.unsupported("**kwargs call", n)
+                kw.update(d)
+                continue
             kw[k.arg] = self.ev(k.value, env)
         if isinstance(f, ClassRef):
             if f.name in self.pkg.classes:
@@ -2135,9 +2160,23 @@ class Interp:
             k = self.intval(args[0], n)
             m = self.intval(args[1], n) if len(args) > 1 else k
             return Arr([[Poly.const(1 if i == j else 0) for j in range(m)] for i in range(k)], 2)
-        if name in ("zeros", "ones"):
+        if name in ("zeros", "ones", "empty"):
             self.check_dtype(kw, n)
             fill = Poly.const(0 if name == "zeros" else 1)
+            if name == "empty":
+                # uninitialised memory: every entry is a distinct unknown, so an entry that is never written shows up
+                self.uninit = getattr(self, "uninit", 0)
+                shp_ = args[0]
+                dims_ = [self.intval(x, n) for x in shp_] if isinstance(shp_, (tuple, list)) else [self.intval(shp_, n)]
+
+                def fresh():
+                    self.uninit += 1
+                    return Poly.var("uninitialised#%d" % self.uninit)
+                if len(dims_) == 1:
+                    return Arr([fresh() for _ in range(dims_[0])], 1)
+                if len(dims_) == 2:
+                    return Arr([[fresh() for _ in range(dims_[1])] for _ in range(dims_[0])], 2)
+                raise self.unsupported("np.empty with %d dims" % len(dims_), n)
             shp = args[0]
             if isinstance(shp, (tuple, list)):
                 dims = [self.intval(x, n) for x in shp]
